@@ -24,6 +24,8 @@ namespace Expect
 inductive Just where
   /-- the enclosing `if`/`switch len(..)` tests the length (or non-emptiness) first -/
   | guardedByLengthCheck
+  /-- `x[:len(x):len(x)]`: both bounds are the slice's own length, which never exceeds its capacity -/
+  | ownLength
   /-- index is the loop variable of `for i < len(x)` / `for i := 0; i < n; i++` -/
   | loopBound
   /-- index is the key of a `range` over the same slice -/
@@ -78,6 +80,7 @@ abbrev Site := String × String × String × String × Nat
 
 def expected : List (Site × Just) := [
   (("bytecode.go", "Bytecode.Decode", "index", "b.Constants[i]", 1), .rangeIndex),
+  (("bytecode.go", "Bytecode.RemoveDuplicates", "index", "b.Constants[i]", 1), .rangeIndex),
   (("bytecode.go", "Bytecode.ReplaceBuiltinModule", "index", "b.Constants[i]", 1), .rangeIndex),
   (("bytecode.go", "fixDecodedObject", "index", "o.Value[i]", 2), .rangeIndex),
   (("bytecode.go", "updateConstIndexes", "index", "insts[i+1]", 2), .wellFormedInstructions),
@@ -113,6 +116,7 @@ def expected : List (Site × Just) := [
   (("compiler.go", "Compiler.replaceInstruction", "index", "c.scopes[c.scopeIndex]", 1), .scopeStackInvariant),
   (("compiler.go", "Compiler.replaceInstruction", "slice", "c.currentInstructions()[pos:]", 1), .jumpPatchingInvariant),
   (("compiler.go", "Compiler.replaceInstruction", "slice", "c.scopes[c.scopeIndex].Instructions[pos:]", 1), .jumpPatchingInvariant),
+  (("compiler.go", "NewCompiler", "slice", "constants[:len(constants):len(constants)]", 1), .ownLength),
   (("compiler.go", "iterateInstructions", "index", "b[i]", 2), .loopBound),
   (("compiler.go", "iterateInstructions", "index", "parser.OpcodeOperands[b[i]]", 1), .definedOpcode),
   (("compiler.go", "iterateInstructions", "slice", "b[i+1:]", 1), .wellFormedInstructions),
